@@ -168,10 +168,57 @@ class Check(Property):
         rec(units, 1)
         return lo[0], hi[0]
 
+    def written_definitions_probe(self):
+        """the ratio is the one implied by the definitions as they are written NOW: after a unit is defined again, every unit
+        defined through it (directly, through a chain, or a bundled unit through a bundled one) converts by the new text - whether or
+        not the units had been used before.  Exact, in a Fraction registry; each history also in a float registry."""
+        v = []
+        logging_disable = __import__("logging").disable
+        logging_disable(50)
+        try:
+            for kind in ("fraction", "float"):
+                for asked_first in (False, True):
+                    u = regs.fresh(kind)
+                    num = (lambda x: Fraction(x)) if kind == "fraction" else float
+                    u.define("c02span_a = 3 * meter")
+                    u.define("c02span_b = 7 * c02span_a")
+                    u.define("c02span_c = c02span_b / 2")
+                    if asked_first:
+                        u.convert(num(1), "c02span_b", "meter"), u.convert(num(1), "mile", "meter"), u.get_root_units("c02span_c")
+                    u.define("c02span_a = 5 * meter")
+                    u.define("yard = 0.9 * meter = yd")
+                    for src, dst, want in (("c02span_b", "meter", Fraction(35)), ("c02span_c", "meter", Fraction(35, 2)),
+                                           ("meter", "c02span_b", Fraction(1, 35)), ("mile", "meter", Fraction(1584)),
+                                           ("c02span_b", "yard", Fraction(350, 9)), ("mile", "c02span_a", Fraction(1584, 5))):
+                        try:
+                            got = u.convert(num(1), src, dst)
+                            bad = (Fraction(got) != want) if kind == "fraction" else abs(float(got) - float(want)) > 1e-12 * float(want)
+                            if kind == "fraction" and not isinstance(got, (Fraction, int)):
+                                bad = True
+                        except Exception as exc:  # noqa: BLE001
+                            got, bad = type(exc).__name__, True
+                        if bad:
+                            v.append(f"C02 [{kind}] after c02span_a and yard were defined again ({'units used before' if asked_first else 'nothing asked before'}): "
+                                     f"1 {src} -> {dst} = {got!r}, the written definitions give {want}")
+                        try:
+                            f_, _ = u.get_root_units(src)
+                            r_, _ = u.get_root_units(dst)
+                            if kind == "fraction" and Fraction(f_) / Fraction(r_) != want:
+                                v.append(f"C02 [{kind}] after the redefinitions get_root_units({src}) / get_root_units({dst}) = {Fraction(f_) / Fraction(r_)}, "
+                                         f"the written definitions give {want}")
+                        except Exception:  # noqa: BLE001
+                            pass
+        finally:
+            logging_disable(0)
+        return v
+
     def oracle(self, c):
         P = regs.pools()
         proj = P.proj
         v = []
+        if not getattr(self, "_written_probe_done", False):
+            self._written_probe_done = True
+            v += self.written_definitions_probe()
         a, b, cc = uc_dict(c["a"]), uc_dict(c["b"]), uc_dict(c["c"])
         try:
             fa, ba = proj.root(a)
